@@ -367,8 +367,18 @@ def certificate_pool(n=4):
     certificate bytes never enter an event log)."""
     from aiortc.rtcdtlstransport import RTCCertificate
     gen = getattr(RTCCertificate, "_sim_orig_generate", None) or RTCCertificate.generateCertificate
-    while len(_cert_pool) < n:
-        _cert_pool.append(gen())
+    if len(_cert_pool) < n:
+        # outside the random seam: the pool is filled during the first run of a process, and the serial numbers drawn for
+        # it must not move that run's seeded os.urandom stream relative to every later run (and to a replay)
+        import os
+        from .seams import _ORIG
+        seamed = os.urandom
+        os.urandom = _ORIG["urandom"]
+        try:
+            while len(_cert_pool) < n:
+                _cert_pool.append(gen())
+        finally:
+            os.urandom = seamed
     return _cert_pool
 
 
